@@ -192,7 +192,7 @@ impl Check for ExportRules {
         for _ in 0..n {
             let s = rng.usize_below(n_nodes);
             match rng.weighted(&[36, 10, 10, 4, 4, 3, 3]) {
-                6 => ops.push(jarr!["wlocal", rng.below(n_pfx), rng.below(6)]),
+                6 => ops.push(jarr!["wlocal", rng.below(n_pfx), rng.below(11)]),
                 0 => {
                     let spec = gen_aspec(&mut rng, Some(node_roles[s]), asn_for(node_roles[s], s), confed);
                     ops.push(jarr!["ann", s, rng.below(n_pfx), spec.to_json()]);
@@ -241,7 +241,7 @@ impl Check for ExportRules {
 
     fn info(&self) -> CheckInfo {
         CheckInfo {
-            rule: "2-4 neighbours drawn from eBGP / iBGP non-client / RR client / RS client / confed-eBGP (confederation on in a third of the runs), each both source and receiver, a third of them add-path receivers (send-max 2-3: the first N paths allowed towards the receiver are expected, by path id); the route-reflector cluster id left at the router id or configured on every neighbour; in a third of the runs a global export policy (configured through the gRPC handlers) whose statement sets MED and / or the next hop (address, self, unchanged, neighbour's address); peer-learned and locally originated routes (some through AddPath with an AS_PATH only an API client can build - a segment of 256 / 257 / 300 numbers, an empty segment, a segment type that does not exist - which must be refused or exported without bringing a task down; those prefixes are not judged otherwise) over 2-5 prefixes with attribute sets drawn per attribute (AS_PATH with SEQ/SET/confed segments and full 255-AS segments, MED, LOCAL_PREF, communities, ORIGINATOR_ID, CLUSTER_LIST, AIGP, unknown transitive / non-transitive attributes, next hops), deliberate AS / ORIGINATOR_ID / CLUSTER_LIST loops; sources with GR+LLGR go down so that LLGR-stale routes exist. At quiescence after every op each receiver's mirror is compared with reference_export(real Loc-RIB ranking, receiver) per the statement, and the RIB must not hold a looped route. non-trivial = some receiver's expected view was non-empty; distinct = hash of seam events".into(),
+            rule: "2-4 neighbours drawn from eBGP / iBGP non-client / RR client / RS client / confed-eBGP (confederation on in a third of the runs), each both source and receiver, a third of them add-path receivers (send-max 2-3: the first N paths allowed towards the receiver are expected, by path id); the route-reflector cluster id left at the router id or configured on every neighbour; in a third of the runs a global export policy (configured through the gRPC handlers) whose statement sets MED and / or the next hop (address, self, unchanged, neighbour's address); peer-learned and locally originated routes (some through AddPath with an AS_PATH only an API client can build - a segment of 256 / 257 / 300 numbers, an empty segment, a segment type that does not exist; an ORIGIN value that does not exist; ORIGIN, MED, AS_PATH or AGGREGATOR handed over as \"unknown\" octets of the wrong size - which must be refused or exported without bringing a task down; those prefixes are not judged otherwise) over 2-5 prefixes with attribute sets drawn per attribute (AS_PATH with SEQ/SET/confed segments and full 255-AS segments, MED, LOCAL_PREF, communities, ORIGINATOR_ID, CLUSTER_LIST, AIGP, unknown transitive / non-transitive attributes, next hops), deliberate AS / ORIGINATOR_ID / CLUSTER_LIST loops; sources with GR+LLGR go down so that LLGR-stale routes exist. At quiescence after every op each receiver's mirror is compared with reference_export(real Loc-RIB ranking, receiver) per the statement, and the RIB must not hold a looped route. non-trivial = some receiver's expected view was non-empty; distinct = hash of seam events".into(),
             components_real: vec!["export::{process_nlri_change, export_attrs, pre_policy_defaults, export_nexthop, rr_reflect_attrs, with_llgr_stale_community, ibgp_split_horizon_suppress, rs_isolation_suppress, is_as_loop}".into(), "PeerSession::{rx_update,run_select,handle_prefix_update,flush_tx}".into(), "packet::Attribute::{as_path_prepend, as_path_prepend_confed, as_path_strip_confed}, PeerCodec both ways".into(), "TableManager, table::Table".into()],
             components_stubbed: vec!["TCP, clock, listener loop, remote speakers".into()],
             assumptions: vec!["the real RIB's ranking is taken as given (C02 checks it)".into(), "RS-client receivers: only the set of prefixes is judged; confed-eBGP receivers: next hop not judged; MED of locally originated routes towards eBGP not judged (statement silent); with an export policy: the MED it sets is expected towards every role, its next-hop action decides the next hop ('unchanged' = the stored next hop when there is a specified one)".into()],
@@ -399,7 +399,7 @@ async fn run(case: Json, tol: Tolerate) -> Outcome {
                 // type that does not exist. Whatever the daemon makes of it - refuse it, or take it and
                 // export it - must not bring a task down; what the receivers are sent is not judged.
                 let shape = op.at(2).as_u64();
-                let segs: Vec<api::AsSegment> = match shape {
+                let segs: Vec<api::AsSegment> = match shape.min(5) {
                     0 => vec![api::AsSegment { r#type: 2, numbers: (0..256u32).map(|k| 64600 + k % 3).collect() }],
                     1 => vec![api::AsSegment { r#type: 2, numbers: (0..257u32).map(|k| 64600 + k % 3).collect() }],
                     2 => vec![api::AsSegment { r#type: 2, numbers: vec![] }, api::AsSegment { r#type: 2, numbers: vec![64601] }],
@@ -407,11 +407,21 @@ async fn run(case: Json, tol: Tolerate) -> Outcome {
                     4 => vec![api::AsSegment { r#type: 3, numbers: (0..300u32).map(|k| 65100 + k % 2).collect() }, api::AsSegment { r#type: 2, numbers: vec![64601] }],
                     _ => vec![api::AsSegment { r#type: 0, numbers: vec![1] }, api::AsSegment { r#type: 1, numbers: (0..255u32).collect() }],
                 };
-                let pattrs = vec![
-                    api::Attribute { attr: Some(api::attribute::Attr::Origin(api::OriginAttribute { origin: 0 })) },
-                    api::Attribute { attr: Some(api::attribute::Attr::AsPath(api::AsPathAttribute { segments: segs })) },
+                let unknown = |code: u32, value: Vec<u8>| api::Attribute { attr: Some(api::attribute::Attr::Unknown(api::UnknownAttribute { flags: 0x40, r#type: code, value })) };
+                let mut pattrs = vec![
+                    // an ORIGIN value that does not exist
+                    api::Attribute { attr: Some(api::attribute::Attr::Origin(api::OriginAttribute { origin: if shape == 6 { 7 } else { 0 } })) },
+                    api::Attribute { attr: Some(api::attribute::Attr::AsPath(api::AsPathAttribute { segments: if shape <= 5 { segs } else { vec![] } })) },
                     api::Attribute { attr: Some(api::attribute::Attr::NextHop(api::NextHopAttribute { next_hop: "192.0.2.9".into() })) },
                 ];
+                match shape {
+                    // attributes the daemon knows, handed over as "unknown" octets of the wrong size
+                    7 => pattrs[0] = unknown(1, vec![0, 0, 0]),
+                    8 => pattrs.push(unknown(4, vec![1, 2])),
+                    9 => pattrs[1] = unknown(2, vec![2, 5, 0, 0]),
+                    10 => pattrs.push(unknown(7, vec![0xfd])),
+                    _ => {}
+                }
                 let path = api::Path { nlri: Some(crate::convert::nlri_to_api(&v4_prefix(op.at(1).as_u64()))), family: Some(crate::convert::family_to_api(Family::IPV4)), pattrs, ..Default::default() };
                 match t.w.grpc.add_path(tonic::Request::new(api::AddPathRequest { table_type: api::TableType::Global as i32, vrf_id: String::new(), path: Some(path) })).await {
                     Ok(_) => {
